@@ -4,6 +4,7 @@ mod gate_eval;
 mod ram_tpl;
 mod synth_findings;
 mod selftest;
+mod shape_tpl;
 mod synth_case;
 mod wellformed;
 
